@@ -400,6 +400,21 @@ def judge_c19(d):
     return None
 
 
+def judge_c18(d):
+    q, impl, model = d["query"], d["impl"], d["model"]
+    t = q.split()
+    if t[1] == "select":
+        return "request routed to channel %s, documented precedence (ping > speedtest > reverse proxy > tunnel) gives %s" % (impl, model)
+    if t[1] == "speed":
+        path = unhex(t[3]).decode("utf-8", "replace")
+        cl = None if t[4] == "-" else unhex(t[4][1:]).decode("utf-8", "replace")
+        num = path.rsplit("/", 1)[-1][:-len("mb.bin")] if path.endswith("mb.bin") else cl
+        if num is not None and (not num.isdigit() or (len(num) > 1 and num[0] == "0")):
+            return None  # '+5', '05': Rust's u32 parser accepts them, the property does not say
+        return "speedtest answered status/body-length %s, documented behaviour is %s" % (impl, model)
+    return None
+
+
 PROPS = {
     "C03": dict(
         suites=["c03"],
@@ -636,5 +651,24 @@ PROPS = {
                  "completion() is awaited blocks its thread) are not modelled",
                  "QUIC close and the three service handlers use the same select pattern as Tunnel::listen (read, not driven here)"],
         assumptions=[],
+    ),
+    "C18": dict(
+        suites=["c18"],
+        judge=judge_c18,
+        level="proof",
+        rule="HttpDemux::select on 4 configurations (speedtest on/off, reverse proxy with mask /rp, /, none) x 3 protocols x {GET, POST, "
+             "CONNECT} x 13 paths around /speed, /rp and the documented file names x 6 marker/Upgrade header combinations; speedtest "
+             "requests through real HTTP/1.1 and HTTP/2 sessions (N in {0,1,2,3,100,101,2^32,+2,02,-1,empty,1.5,1e1}, malformed paths, "
+             "uploads with Content-Length at 0, 1, 5, 70000, 120 MiB, 120 MiB + 1, +7, x, empty and more/less data than announced, other "
+             "methods), body length counted by the client under a paused clock; ping markers over both protocols; a reverse-proxy "
+             "WebSocket-style exchange against a real loopback origin with both values of the egress policy; an authenticator is "
+             "configured and no request carries credentials",
+        explanation="theorems demux_precedence, download_accept_iff, download_exact, download_completes, upload_accept_iff, else_400, "
+                    "post_other_path_400, upload_done, upload_counts, x_original_protocol_present about TT/Model/Services.lean",
+        trusted=["Rust's u32 FromStr as modelled by parseU32 (optional '+', digits, range)", "http crate Uri::path()",
+                 "the reverse-proxy destination is settings.reverse_proxy.server_address by construction (read from reverse_proxy.rs, "
+                 "exercised by the loopback-origin run); HTTP/3 reverse proxy not driven",
+                 "100 MiB downloads are run in the thorough tier only"],
+        assumptions=["'/+5mb.bin' and '/05mb.bin' are accepted as 5 MiB (Rust integer syntax): not asserted either way"],
     ),
 }
